@@ -16,7 +16,8 @@
    execution (op-level oracle), not proved: the dynamic clause is PARTIAL. *)
 From VF Require Import Base.Prelude Gen.Enums Gen.Configs Gen.Checks Model.Graph Gen.InstChecks
      Model.Perform Model.Sem Spec.WF Proofs.ListFacts Proofs.PerformStep Proofs.ModeProofs
-     Spec.Interleave Proofs.SemProofs Proofs.SemGlue Proofs.SemRun.
+     Spec.Interleave Proofs.SemProofs Proofs.SemGlue Proofs.SemRun Proofs.PerformInv Proofs.SkeletonInv
+     Proofs.InterRun Proofs.InterInv.
 
 Theorem C06_dequantize_insertion_preserves_meaning :
   forall (val : Type) (K : Z -> Z -> list (option val) -> list val)
@@ -116,6 +117,58 @@ Example C06_interleaving_nonvacuous :
          [o 0 [0; 1] [3] 0; o 0 [0; 2] [4] 1]
          [o 9 [1] [5] UID_INSERTED; o 0 [0; 5] [3] 0; o 0 [0; 2] [4] 1] = false.
 Proof. vm_compute. split; reflexivity. Qed.
+
+(* ---- WHOLE PERFORMER RUNS (Proofs/InterInv.v) ----
+   A float-compute plan: every instruction is ADD_DEQUANTIZE or NO_QUANTIZE
+   (weight-only / float16 recipes); each ADD_DEQUANTIZE of subgraph k names an
+   original constant (no producer), lists all operators that read it, one
+   instruction per constant ([ti_ok], [NoDup (deq_tensors ..)]).  Then, for
+   every kernel semantics K whose DEQUANTIZE maps the stored constant q c to
+   dq c, subgraph k of the result computes on every original tensor other
+   than those constants exactly what the input subgraph computes with dq c in
+   their place.  Proof: the interleaving is an invariant of the performer run
+   (together with the C01 and C02 invariants), and interleavings preserve
+   meaning. *)
+Theorem C06_float_compute_run_is_an_interleaving :
+  forall (val : Type) (K : Z -> Z -> list (option val) -> list val) (q dq : Z -> val)
+         m0 k g0 tis m',
+    nth_opt (m_subgraphs m0) k = Some g0 -> uids_ok m0 ->
+    (forall c, K (fst (add_op_code BC_DEQUANTIZE (m_opcodes m0))) UID_INSERTED [Some (q c)] = [dq c]) ->
+    Forall wf_sg (m_subgraphs m0) ->
+    (forall ti i, In ti tis -> In i (ti_insts ti) -> sane m0 (ti_sg ti) i) ->
+    Forall (ti_ok k g0) tis -> NoDup (deq_tensors k tis) ->
+    transform_graph m0 tis = Ok m' ->
+    exists g' S, nth_opt (m_subgraphs m') k = Some g' /\
+      (forall c, In c S <-> In c (deq_tensors k tis)) /\
+      inter val K (ntens g0) (inS S) q dq [] (sg_ops g0) (sg_ops g').
+Proof. intros. eapply transform_graph_float_compute_interleaving; eassumption. Qed.
+Print Assumptions C06_float_compute_run_is_an_interleaving.
+
+Theorem C06_float_compute_run_preserves_meaning :
+  forall (val : Type) (K : Z -> Z -> list (option val) -> list val) (q dq : Z -> val)
+         m0 k g0 tis m' (e0 e : Z -> option val),
+    nth_opt (m_subgraphs m0) k = Some g0 -> uids_ok m0 ->
+    (forall c, K (fst (add_op_code BC_DEQUANTIZE (m_opcodes m0))) UID_INSERTED [Some (q c)] = [dq c]) ->
+    Forall wf_sg (m_subgraphs m0) ->
+    (forall ti i, In ti tis -> In i (ti_insts ti) -> sane m0 (ti_sg ti) i) ->
+    Forall (ti_ok k g0) tis -> NoDup (deq_tensors k tis) ->
+    transform_graph m0 tis = Ok m' ->
+    (forall c, In c (deq_tensors k tis) -> 0 <= c < ntens g0) ->
+    (forall t, t < ntens g0 -> ~ In t (deq_tensors k tis) -> e t = e0 t) ->
+    (forall c, In c (deq_tensors k tis) -> e0 c = Some (dq c) /\ e c = Some (q c)) ->
+    exists g', nth_opt (m_subgraphs m') k = Some g' /\
+      forall t, t < ntens g0 -> ~ In t (deq_tensors k tis) ->
+                run val K (sg_ops g') e t = run val K (sg_ops g0) e0 t.
+Proof. intros. eapply transform_graph_float_compute_meaning; eassumption. Qed.
+Print Assumptions C06_float_compute_run_preserves_meaning.
+
+(* the plan hypotheses are decidable; correspondence I+T+E evaluates
+   [plan_okb] in Coq for every subgraph of every generated float-compute run
+   and reports on how many of them the whole-run theorem applies *)
+Theorem C06_plan_check_is_sound :
+  forall k g0 tis, plan_okb k g0 tis = true -> Forall (ti_ok k g0) tis /\ NoDup (deq_tensors k tis).
+Proof. exact plan_okb_sound. Qed.
+Print Assumptions C06_plan_check_is_sound.
 
 (* dynamic range (PARTIAL: idealised kernel contract as hypothesis) *)
 Theorem C06_dynamic_range_partial :
